@@ -63,6 +63,14 @@ func sigDesc(i int) ocispec.Descriptor {
 		Annotations: map[string]string{ocispec.AnnotationCreated: created.Format(time.RFC3339)}}
 }
 
+// origin: the index of the entry whose descriptor entry i carries ('r' = the listing repeats the previous entry's descriptor)
+func origin(listing string, i int) int {
+	for i > 0 && listing[i] == 'r' {
+		i--
+	}
+	return i
+}
+
 func (r *srepo) Resolve(ctx context.Context, ref string) (ocispec.Descriptor, error) {
 	r.add("resolve", -1)
 	return r.resolved, nil
@@ -76,7 +84,7 @@ func (r *srepo) ListSignatures(ctx context.Context, desc ocispec.Descriptor, fn 
 		}
 		var page []ocispec.Descriptor
 		for k := 0; k < ps; k++ {
-			page = append(page, sigDesc(i))
+			page = append(page, sigDesc(origin(r.listing, i)))
 			i++
 		}
 		if err := fn(page); err != nil {
@@ -94,6 +102,9 @@ func (r *srepo) FetchSignatureBlob(ctx context.Context, d ocispec.Descriptor) ([
 			r.add("fetch", i)
 			if r.listing[i] == 'u' {
 				return nil, ocispec.Descriptor{}, errors.New("unfetchable")
+			}
+			if r.listing[i] == 'e' { // fetched all right, and there is nothing in it (nil or empty)
+				return [][]byte{nil, {}}[i%2], ocispec.Descriptor{MediaType: mtOf(i), Digest: digest.FromBytes(nil)}, nil
 			}
 			if r.blobs != nil {
 				return r.blobs[i], ocispec.Descriptor{MediaType: r.blobMT[i], Digest: digest.FromBytes(r.blobs[i]), Size: int64(len(r.blobs[i]))}, nil
@@ -120,6 +131,17 @@ type sver struct {
 }
 
 func (v *sver) Verify(ctx context.Context, desc ocispec.Descriptor, sig []byte, opts notation.VerifierVerifyOptions) (*notation.VerificationOutcome, error) {
+	if len(sig) < 2 { // an empty envelope: it is the one fetched last; worthless like any other invalid signature
+		idx := -1
+		v.repo.mu.Lock()
+		for _, c := range v.repo.log {
+			if c.op == "fetch" {
+				idx = c.idx
+			}
+		}
+		v.repo.mu.Unlock()
+		sig = []byte{'e', byte(idx)}
+	}
 	v.repo.add("verify", int(sig[1]))
 	if opts.SignatureMediaType != mtOf(int(sig[1])) {
 		v.repo.add("verify-with-wrong-media-type", int(sig[1]))
@@ -274,6 +296,21 @@ func main() {
 		}
 		scen = append(scen, scenario{listing: ls, pages: pg, N: 1 + frng.Intn(7), ref: []string{"tag", "digest"}[frng.Intn(2)], wrap: frng.Bool(), failAt: 1 + frng.Intn(len(pg)-1)})
 	}
+	// listings with an EMPTY envelope ('e': fetched without error, zero bytes - one more worthless signature) and with a
+	// REPEATED entry ('r': the listing carries the previous entry's descriptor once more - one more listed signature)
+	srng := r.Rand("special-listings")
+	for k := 0; k < r.N(30000, 400000); k++ {
+		n := 1 + srng.Intn(6)
+		b := make([]byte, n)
+		for i := range b {
+			b[i] = "viuerier"[srng.Intn(8)]
+			if i == 0 && b[i] == 'r' {
+				b[i] = 'i'
+			}
+		}
+		pgs := pagings(n, true)
+		scen = append(scen, scenario{listing: string(b), pages: pgs[srng.Intn(len(pgs))], N: 1 + srng.Intn(7), ref: []string{"tag", "digest"}[srng.Intn(2)], wrap: srng.Bool()})
+	}
 	// real-verifier sample
 	rng := r.Rand("real-sample")
 	nReal := r.N(600, 200000)
@@ -382,10 +419,10 @@ func main() {
 				lim = s.N
 			}
 			for i := 0; i < lim; i++ {
-				if s.listing[i] == 'u' {
+				if s.listing[origin(s.listing, i)] == 'u' {
 					break
 				}
-				if s.listing[i] == 'v' {
+				if s.listing[origin(s.listing, i)] == 'v' {
 					istar, wantOK = i, true
 					break
 				}
@@ -486,7 +523,7 @@ func main() {
 		if wantOK && !s.skip && err == nil {
 			// every signature up to the first good one was fetched, fetchable ones evaluated
 			for i := 0; i <= istar; i++ {
-				if !fetched[i] {
+				if !fetched[i] && s.listing[i] != 'r' {
 					r.Violation(sig("trace-skipped-signature"), fmt.Sprintf("signature #%d before the first good one was never fetched", i+1), wit)
 				}
 			}
